@@ -2,7 +2,7 @@
    Models: Util/Graph.v (transpose, matrix_closure, tarjan, longest_path mirror the Go code);
    certifying checkers: Util/GraphSpec.v.  Only theorem statements, examples, Print Assumptions. *)
 From Coq Require Import List Bool Arith.
-From TM Require Import Util.Graph Util.Graph_proofs Util.GraphSpec Util.GraphSpec_proofs Util.Tarjan_proofs.
+From TM Require Import Util.Graph Util.Graph_proofs Util.GraphSpec Util.GraphSpec_proofs Util.Tarjan_proofs Util.LongestPath_proofs.
 Import ListNotations.
 
 (* Transposition reverses every edge, with multiplicity, and invents none. *)
@@ -83,6 +83,28 @@ Proof. exact check_scc_complete. Qed.
 Theorem C26_tarjan_small : forall g, length g < 2 -> tarjan g = [].
 Proof. exact tarjan_small. Qed.
 
+(* LongestPath, the algorithm itself (Util/LongestPath_proofs.v, invariant over height/link/cycle with the
+   active call chain as ghost state): for EVERY graph with >= 1 vertex whose edges name existing vertices,
+   the step-by-step model of path.go (dfs with its fuel n+2, the driver loop choosing `first`, the link walk)
+   returns None exactly when the graph has a cycle, and otherwise a real path that no path of the graph
+   exceeds in number of vertices. *)
+Theorem C26_longest_path_spec :
+  forall g, graph_wf g = true -> 1 <= length g -> longest_ok g (longest_path g).
+Proof. exact longest_path_spec. Qed.
+
+Theorem C26_longest_path_dfs_spec :
+  forall g, graph_wf g = true -> forall f gr i s,
+  PPre g f gr i s -> PPost g gr i s (lp_dfs f g i s).
+Proof. exact lp_dfs_spec. Qed.
+
+Theorem C26_longest_path_passes_certificate :
+  forall g, graph_wf g = true -> 1 <= length g -> check_longest g (longest_path g) = true.
+Proof. exact longest_path_passes_certificate. Qed.
+
+(* the zero-vertex graph: the Go code returns the empty (nil) slice, which is also its "cycle" answer *)
+Theorem C26_longest_path_empty : longest_path [] = Some [].
+Proof. exact longest_path_empty. Qed.
+
 (* non-vacuity: the model of Tarjan/LongestPath run on a concrete graph passes the certificates *)
 Example C26_example :
   let g := [[1]; [2; 3]; [0]; [4]; []] in
@@ -109,3 +131,7 @@ Print Assumptions C26_strong_connect_spec.
 Print Assumptions C26_tarjan_passes_certificates.
 Print Assumptions C26_scc_certificate_complete.
 Print Assumptions C26_tarjan_small.
+Print Assumptions C26_longest_path_spec.
+Print Assumptions C26_longest_path_dfs_spec.
+Print Assumptions C26_longest_path_passes_certificate.
+Print Assumptions C26_longest_path_empty.
